@@ -224,6 +224,12 @@ HAND = [
     {"source": "{% assign a = 'xxxxxxxxxx' %}{% capture b %}{{ a }}{{ a }}{% endcapture %}{{ b }}", "partials": {}},
     {"source": "{% tablerow i in (1..3) %}{% for j in (1..3) %}{{ j }}{% endfor %}{% endtablerow %}", "partials": {}},
     {"source": "{% for i in (1..2) %}{% render 'a' for xs %}{% endfor %}", "partials": {"a": "{% for k in (1..2) %}{{ k }}{% endfor %}"}},
+    # what a nested loop sees of the loops around it (parentloop) is part of "the result": a limit's bookkeeping must not show up there
+    {"source": "{% for i in (1..2) %}{% tablerow j in (1..2) %}{% for k in (1..2) %}[{{ forloop.parentloop.index }}/{{ forloop.parentloop.length }}/{{ forloop.parentloop.first }}]{% endfor %}{% endtablerow %}{% endfor %}", "partials": {}},
+    {"source": "{% for i in (1..3) %}{% include 'a' for xs %}{% endfor %}", "partials": {"a": "{% for k in (1..2) %}<{{ forloop.parentloop.index }}{{ forloop.parentloop.rindex }}>{% endfor %}"}},
+    {"source": "{% tablerow j in (1..2) %}{% for k in (1..2) %}({{ forloop.parentloop.index }}{{ forloop.parentloop }}){% endfor %}{% endtablerow %}", "partials": {}},
+    {"source": "{% for i in (1..2) %}{% for j in (1..2) %}{% tablerow t in (1..1) %}{% for k in (1..2) %}{{ forloop.parentloop.index }}{{ forloop.parentloop.parentloop.index }}{% endfor %}{% endtablerow %}{% endfor %}{% endfor %}", "partials": {}},
+    {"source": "{% for i in (1..2) %}{% render 'a' for xs %}{% endfor %}", "partials": {"a": "{{ forloop.index }}{% for k in (1..2) %}{{ forloop.parentloop.index }}{{ forloop.parentloop.parentloop.index }}{% endfor %}"}},
 ]
 
 
